@@ -146,7 +146,8 @@ def codec_cases(ctx, n_random):
                 for v in (p - 1, p, p + 1, -p - 1, -p, -p + 1):
                     for g in (0, 1):
                         combos.add((b, g, v))
-                    combos.add((r.choice((2, 10, 16)), r.randint(0, 1), v))
+                    if ctx.thorough():
+                        combos.add((r.choice((2, 10, 16)), r.randint(0, 1), v))
                 p *= b
         for g, k in ((3, 10), (4, 16), (8, 2)):      # grouping boundaries
             for e in range(0, 70, g):
@@ -273,7 +274,7 @@ def _tick(ctx, label):
 
 
 def run_codec_tie(ctx):
-    n_random = 400 if ctx.thorough() else 40
+    n_random = 400 if ctx.thorough() else 30
     enc, dec, tok = codec_cases(ctx, n_random)
     lines = []
     for t, b, g, v in enc:
@@ -336,7 +337,7 @@ def run_codec_tie(ctx):
         cases.append(("CTok %s" % G.coq_chars(sb), "OToks %s [%s]" % ("true" if o[-1] == "ok" else "false", ";".join(G.coq_chars(x) for x in toks)),
                       dict(kind="tok", text=sb.decode("latin-1"), cpp=[x.decode("latin-1") for x in toks])))
         ctx.count("tok")
-    bad = fw.CoqCases(ctx, "codec", HEADER, "run_codec", "cout_eqb", "ccase", "cout", shard=500).run(cases)
+    bad = SharedCases(ctx, "codec", HEADER, "run_codec", "cout_eqb", "ccase", "cout", shard=900 if not ctx.thorough() else 1500).run(cases)
     _tick(ctx, "codec cases evaluated in Coq (%d)" % len(cases))
     for a, b, obj in cases:
         nt = obj["kind"] != "enc" or obj["value"] not in (0, 1)
@@ -616,10 +617,10 @@ def perturb(r, text, leaves_info):
 
 def run_struct_tie(ctx, gt):
     r = ctx.rng
-    n_mod = 160 if ctx.thorough() else 14
+    n_mod = 100 if ctx.thorough() else 10
     n_inst = 5 if ctx.thorough() else 3
-    n_opt = 10 if ctx.thorough() else 6
-    n_pert = 40 if ctx.thorough() else 20
+    n_opt = 8 if ctx.thorough() else 6
+    n_pert = 40 if ctx.thorough() else 24
     allopts = option_sets(r, ctx.thorough())
     mods = []
     jobs = []
@@ -749,7 +750,7 @@ def run_struct_tie(ctx, gt):
     # for option sets that are not re-readable (single line + comments) only the text is compared
     runner = SharedCases(ctx, "write", HEADER + "Definition reread_b (o : opts) : bool := o_multiline o || negb (o_comments o).\n",
                          "(fun c => let r := run_write c in (fst r, snd r && reread_b (snd (fst c))))", "run_write_eqb",
-                         "(gentab * opts * tval)", "(list Z * bool)", shard=48, timeout=2400)
+                         "(gentab * opts * tval)", "(list Z * bool)", shard=90, timeout=2400)
     bad = runner.run(wcases) if wcases else []
     _tick(ctx, "write cases evaluated in Coq (%d)" % len(wcases))
     for a, b, obj in wcases:
@@ -992,7 +993,7 @@ def run_update_tie(ctx, mods, results, n_pert, gt):
     if not ucases:
         return
     bad = SharedCases(ctx, "update", HEADER, "run_update_flat", "run_update_flat_eqb", "(sch * leaf_tab * list Z)", "(Z * list Z)",
-                      shard=60, timeout=1800).run(ucases)
+                      shard=120, timeout=1800).run(ucases)
     _tick(ctx, "update cases evaluated in Coq (%d)" % len(ucases))
     for a, b, obj in ucases:
         ctx.case(("u", a), nontrivial=True, sample=None)
